@@ -35,6 +35,11 @@ type TxOp struct {
 	// Fee amount (base units) and gas mode: 0 = generous limit, 1 = exact need unknown -> small, g>=2 = limit g-2.
 	Fee     uint64 `json:"fee,omitempty"`
 	GasMode int    `json:"gas,omitempty"`
+	// GasFit, when > 0, sets the gas limit to the size of the signed transaction (one gas per
+	// byte) plus GasFit-1: a limit in the neighbourhood of what the method itself charges, so that
+	// the gas runs out at one of the later charge points inside the handler (a second operation, a
+	// message executed on behalf of a vault) rather than before the handler starts.
+	GasFit int `json:"gasfit,omitempty"`
 	// NonceOff is added to the expected nonce (0 = valid).
 	NonceOff int `json:"nonce_off,omitempty"`
 	// Mut alters the signed envelope: "" | badsig | flip | otherchain | ctx | nochain | trunc | garbage | oversize
@@ -280,6 +285,20 @@ func (w *World) BuildTx(op TxOp, v TxView, seq int) (*BuiltTx, error) {
 	st, err := transaction.Sign(signer, tx)
 	if err != nil {
 		return nil, err
+	}
+	if op.GasFit > 0 && tx.Fee != nil {
+		// (the size depends on the encoded limit: iterate to the fixed point)
+		for i := 0; i < 4; i++ {
+			want := transaction.Gas(len(cbor.Marshal(st)) + op.GasFit - 1)
+			if tx.Fee.Gas == want {
+				break
+			}
+			tx.Fee.Gas = want
+			if st, err = transaction.Sign(signer, tx); err != nil {
+				return nil, err
+			}
+		}
+		bt.Gas = uint64(tx.Fee.Gas)
 	}
 	bt.Authentic, bt.Decodable = true, true
 	switch op.Mut {
